@@ -144,7 +144,55 @@ def s_add(P, Q):
     return (x, (lam * (P[0] - x) - P[1]) % SP)
 
 
+def _j_double(P):
+    X, Y, Z = P
+    if Y == 0:
+        return (0, 1, 0)
+    S_ = 4 * X * Y * Y % SP
+    M = 3 * X * X % SP
+    X3 = (M * M - 2 * S_) % SP
+    Y3 = (M * (S_ - X3) - 8 * Y * Y * Y * Y) % SP
+    return (X3, Y3, 2 * Y * Z % SP)
+
+
+def _j_add_affine(P, Q):
+    """Jacobian P + affine Q (Q not infinity)."""
+    X1, Y1, Z1 = P
+    if Z1 == 0:
+        return (Q[0], Q[1], 1)
+    Z1Z1 = Z1 * Z1 % SP
+    U2 = Q[0] * Z1Z1 % SP
+    S2 = Q[1] * Z1 * Z1Z1 % SP
+    H = (U2 - X1) % SP
+    R = (S2 - Y1) % SP
+    if H == 0:
+        return _j_double(P) if R == 0 else (0, 1, 0)
+    HH = H * H % SP
+    HHH = H * HH % SP
+    V = X1 * HH % SP
+    X3 = (R * R - HHH - 2 * V) % SP
+    Y3 = (R * (V - X3) - Y1 * HHH) % SP
+    return (X3, Y3, Z1 * H % SP)
+
+
 def s_mul(k, P):
+    """Scalar multiplication (double-and-add in Jacobian coordinates); s_add is the
+    plain affine group law and the selftest cross-checks the two."""
+    if P is None or k % SN == 0:
+        return None
+    k %= SN
+    R = (0, 1, 0)
+    for bit in bin(k)[2:]:
+        R = _j_double(R)
+        if bit == "1":
+            R = _j_add_affine(R, P)
+    if R[2] == 0:
+        return None
+    zi = pow(R[2], SP - 2, SP)
+    return (R[0] * zi * zi % SP, R[1] * zi * zi * zi % SP)
+
+
+def s_mul_affine(k, P):
     R = None
     while k > 0:
         if k & 1:
@@ -280,6 +328,11 @@ def selftest():
         errs.append("secp256k1 G not on curve")
     if s_mul(SN, SG) is not None:
         errs.append("secp256k1 n*G != O")
+    for k in (1, 2, 3, 7, 2 ** 128 + 5, SN - 1, SN - 2):
+        if s_mul(k, SG) != s_mul_affine(k, SG):
+            errs.append("secp256k1 jacobian/affine mismatch k=%d" % k)
+    if s_mul_affine(SN, SG) is not None:
+        errs.append("secp256k1 n*G != O (affine)")
     if s_mul(2, SG)[0] != 0xC6047F9441ED7D6D3045406E95C07CD85C778E4B8CEF3CA7ABAC09B95C709EE5:
         errs.append("secp256k1 2G.x")
     for d in (1, 3, 0xB7E151628AED2A6ABF7158809CF4F3C762E7160F38B4DA56A784D9045190CFEF):
